@@ -22,6 +22,7 @@ import Fir.Proofs.SimdVertU8Lemmas
 import Fir.Proofs.SimdU8x3Lemmas
 import Fir.Proofs.SimdVertU16Lemmas
 import Fir.Proofs.SimdU8x1Lemmas
+import Fir.Proofs.SimdU8x2Lemmas
 
 namespace Fir.C02
 open Fir
@@ -414,5 +415,57 @@ theorem u8x1_sse4_source_as_modelled :
     Fir.Gen.u8x1_sse4_one_row_skeleton = "_mm_setzero_si128() ; normalizer.precision() ; chunks_exact(8) ; remainder() ; _mm_loadu_si128(k.as_ptr() as *const __m128i) ; simd_utils::loadl_epi64(src_row, x) ; _mm_cvtepu8_epi16(pixels_u8x8) ; _mm_add_epi32(result_i32x4, _mm_madd_epi16(pixels_i16x8, coeffs_i16x8)) ; chunks_exact(4) ; remainder() ; next() ; simd_utils::loadl_epi64(k, 0) ; simd_utils::loadl_epi32(src_row, x) ; _mm_cvtepu8_epi16(pixels_u8x4) ; _mm_add_epi32(result_i32x4, _mm_madd_epi16(pixels_i16x4, coeffs_i16x4)) ; _mm_storeu_si128(buf.as_mut_ptr() as *mut __m128i, result_i32x4) ; sum() ; normalizer.clip(result_i32)" ∧
     Fir.Gen.u8x1_sse4_four_rows_skeleton = "_mm_setzero_si128() ; normalizer.precision() ; chunks_exact(8) ; remainder() ; _mm_loadu_si128(k.as_ptr() as *const __m128i) ; simd_utils::loadl_epi64(src_rows[i], x) ; _mm_cvtepu8_epi16(pixels_u8x8) ; _mm_add_epi32(result_i32x4[i], _mm_madd_epi16(pixels_i16x8, coeffs_i16x8)) ; chunks_exact(4) ; remainder() ; next() ; simd_utils::loadl_epi64(k, 0) ; simd_utils::loadl_epi32(src_rows[i], x) ; _mm_cvtepu8_epi16(pixels_u8x4) ; _mm_add_epi32(result_i32x4[i], _mm_madd_epi16(pixels_i16x4, coeffs_i16x4)) ; _mm_storeu_si128(buf.as_mut_ptr() as *mut __m128i, v) ; sum() ; normalizer.clip(v)" := by
   constructor <;> rfl
+
+/-! ### two-channel 8-bit images: the SSE4.1 horizontal kernels of U8x2 (src/convolution/u8x2/sse4.rs)
+
+    Both kernels keep two 32-bit partial sums per channel, each started at `1 << (precision - 2)`, and join them with
+    `i32::saturating_add` (`set_dst_pixel` / the end of `horiz_convolution_one_row`); the portable kernel keeps one wrapping
+    `i32` per channel.  They agree for every coefficient list inside the `i32` headroom (`255 * Σ|k| + 2^(p-1) < 2^31`),
+    which is what the normalizer guarantees (`Fir.C03.headroom_u8`: `p < PRECISION_BITS`, `Σ|k| ≤ 4 * 2^p`).  Every 8 / 4 / 2 / 1
+    step of the four-row kernel and the 8 / 4 / gathered 1..3 steps of the one-row kernel are modelled lane by lane. -/
+
+theorem u8x2_sse4_four_rows_eq_portable (p : Nat) (hp2 : 2 ≤ p) (row : List Int) (start : Nat) (ks : List Int)
+    (hB : 255 * Fir.SimdU8x2.absSum ks + 2 ^ (p - 1) < (2 : Int) ^ 31) :
+    Fir.SimdU8x2.pixelR p row start ks
+      = [clip8 (2 ^ (p - 1) + Fir.SimdU8x2.dot2 row 0 ks start) p, clip8 (2 ^ (p - 1) + Fir.SimdU8x2.dot2 row 1 ks start) p] :=
+  Fir.Proofs.U8x2.pixelR_eq_portable p hp2 row start ks hB
+
+theorem u8x2_sse4_one_row_eq_portable (p : Nat) (hp2 : 2 ≤ p) (row : List Int) (start : Nat) (ks : List Int)
+    (hB : 255 * Fir.SimdU8x2.absSum ks + 2 ^ (p - 1) < (2 : Int) ^ 31) :
+    Fir.SimdU8x2.pixel p row start ks
+      = [clip8 (2 ^ (p - 1) + Fir.SimdU8x2.dot2 row 0 ks start) p, clip8 (2 ^ (p - 1) + Fir.SimdU8x2.dot2 row 1 ks start) p] :=
+  Fir.Proofs.U8x2.pixel_eq_portable p hp2 row start ks hB
+
+/-- with the normalizer's own bounds (`precision < PRECISION_BITS`, translated; `Σ|k| ≤ 4 * 2^precision`) the saturating
+    join is exact and both kernels of a pass give the same bytes -/
+theorem u8x2_sse4_kernels_agree_normalized (p : Nat) (hp2 : 2 ≤ p) (hp : p < Fir.Gen.PRECISION_BITS) (row : List Int) (start : Nat)
+    (ks : List Int) (hS : Fir.SimdU8x2.absSum ks ≤ 4 * 2 ^ p) :
+    Fir.SimdU8x2.pixelR p row start ks = Fir.SimdU8x2.pixel p row start ks := by
+  have hB : 255 * Fir.SimdU8x2.absSum ks + 2 ^ (p - 1) < (2 : Int) ^ 31 := by
+    have hp' : p ≤ 21 := by unfold Fir.Gen.PRECISION_BITS at hp; omega
+    have h1 : (2 : Int) ^ p ≤ 2 ^ 21 := Fir.Proofs.pow2_le p 21 hp'
+    have h2 : (2 : Int) ^ (p - 1) ≤ 2 ^ p := Fir.Proofs.pow2_le (p - 1) p (by omega)
+    generalize (2 : Int) ^ p = P at *
+    generalize (2 : Int) ^ (p - 1) = Q at *
+    generalize Fir.SimdU8x2.absSum ks = S at *
+    norm_num at h1 ⊢
+    omega
+  rw [u8x2_sse4_four_rows_eq_portable p hp2 row start ks hB, u8x2_sse4_one_row_eq_portable p hp2 row start ks hB]
+
+/-- the hypotheses are met by a concrete non-trivial case (precision 14, three coefficients with a negative lobe) -/
+example : (2 ≤ 14) ∧ 255 * Fir.SimdU8x2.absSum [-1000, 18384, -1000] + 2 ^ (14 - 1) < (2 : Int) ^ 31 := by decide
+
+theorem u8x2_sse4_source_as_modelled :
+    Fir.Gen.u8x2_sse4_four_sh1 = [0, (-1), 2, (-1), 4, (-1), 6, (-1), 1, (-1), 3, (-1), 5, (-1), 7, (-1)] ∧
+    Fir.Gen.u8x2_sse4_four_sh2 = [8, (-1), 10, (-1), 12, (-1), 14, (-1), 9, (-1), 11, (-1), 13, (-1), 15, (-1)] ∧
+    Fir.Gen.u8x2_sse4_one_pix_sh1 = [0, (-1), 2, (-1), 1, (-1), 3, (-1), 4, (-1), 6, (-1), 5, (-1), 7, (-1)] ∧
+    Fir.Gen.u8x2_sse4_one_coeff_sh1 = [0, 1, 2, 3, 0, 1, 2, 3, 4, 5, 6, 7, 4, 5, 6, 7] ∧
+    Fir.Gen.u8x2_sse4_one_pix_sh2 = [8, (-1), 10, (-1), 9, (-1), 11, (-1), 12, (-1), 14, (-1), 13, (-1), 15, (-1)] ∧
+    Fir.Gen.u8x2_sse4_one_coeff_sh2 = [8, 9, 10, 11, 8, 9, 10, 11, 12, 13, 14, 15, 12, 13, 14, 15] ∧
+    Fir.Gen.u8x2_sse4_one_pix_sh3 = [0, (-1), 2, (-1), 1, (-1), 3, (-1), 4, (-1), 6, (-1), 5, (-1), 7, (-1)] ∧
+    Fir.Gen.u8x2_sse4_four_rows_skeleton = "normalizer.precision() ; _mm_set1_epi32(1 << (precision - 2)) ; chunks_exact(8) ; remainder() ; simd_utils::ptr_i16_to_set1_epi64x(k, 0) ; simd_utils::ptr_i16_to_set1_epi64x(k, 4) ; simd_utils::loadu_si128(src_rows[i], x) ; _mm_shuffle_epi8(source, sh1) ; _mm_add_epi32(sss[i], _mm_madd_epi16(pix, mmk0)) ; _mm_shuffle_epi8(source, sh2) ; _mm_add_epi32(tmp_sum, _mm_madd_epi16(pix, mmk1)) ; chunks_exact(4) ; remainder() ; simd_utils::ptr_i16_to_set1_epi64x(k, 0) ; simd_utils::loadl_epi64(src_rows[i], x) ; _mm_shuffle_epi8(source, sh1) ; _mm_add_epi32(sss[i], _mm_madd_epi16(pix, mmk)) ; chunks_exact(2) ; remainder() ; simd_utils::mm_load_and_clone_i16x2(k) ; simd_utils::loadl_epi32(src_rows[i], x) ; _mm_shuffle_epi8(source, sh1) ; _mm_add_epi32(sss[i], _mm_madd_epi16(pix, mmk)) ; first() ; _mm_set1_epi32(k as i32) ; simd_utils::loadl_epi16(src_rows[i], x) ; _mm_shuffle_epi8(source, sh1) ; _mm_add_epi32(sss[i], _mm_madd_epi16(pix, mmk)) ; set_dst_pixel(sss[i], dst_rows[i], dst_x, normalizer)" ∧
+    Fir.Gen.u8x2_sse4_one_row_skeleton = "normalizer.precision() ; _mm_set1_epi32(1 << (precision - 2)) ; chunks_exact(8) ; remainder() ; simd_utils::loadu_si128(k, 0) ; simd_utils::loadu_si128(src_row, x) ; _mm_shuffle_epi8(source, pix_sh1) ; _mm_shuffle_epi8(ksource, coeff_sh1) ; _mm_add_epi32(sss, _mm_madd_epi16(pix, mmk)) ; _mm_shuffle_epi8(source, pix_sh2) ; _mm_shuffle_epi8(ksource, coeff_sh2) ; _mm_add_epi32(sss, _mm_madd_epi16(pix, mmk)) ; chunks_exact(4) ; remainder() ; _mm_set_epi16(k[3], k[2], k[3], k[2], k[1], k[0], k[1], k[0]) ; simd_utils::loadl_epi64(src_row, x) ; _mm_shuffle_epi8(source, pix_sh3) ; _mm_add_epi32(sss, _mm_madd_epi16(pix, mmk)) ; is_empty() ; _mm_set_epi16(0, pixels[5], 0, pixels[4], pixels[3], pixels[1], pixels[2], pixels[0],) ; _mm_set_epi16(0, coeffs[2], 0, coeffs[2], coeffs[1], coeffs[0], coeffs[1], coeffs[0],) ; _mm_add_epi32(sss, _mm_madd_epi16(pix, mmk)) ; _mm_extract_epi64::<0>(sss) ; _mm_extract_epi64::<1>(sss) ; saturating_add((hi >> 32) as i32) ; saturating_add((hi & 0xffffffff) as i32) ; normalizer.clip(a32) ; normalizer.clip(l32) | coeffs[i] = coeff ; pixels[i * 2] = pixel[0] as i16 ; pixels[i * 2 + 1] = pixel[1] as i16 ; let a32 = ((lo >> 32) as i32).saturating_add((hi >> 32) as i32) ; let l32 = ((lo & 0xffffffff) as i32).saturating_add((hi & 0xffffffff) as i32) ; dst_row.get_unchecked_mut(dst_x).0 = [l8, a8]" ∧
+    Fir.Gen.u8x2_sse4_set_dst_pixel = "let l32x2 = _mm_extract_epi64::<0>(raw) ; let a32x2 = _mm_extract_epi64::<1>(raw) ; let l32 = ((l32x2 >> 32) as i32).saturating_add((l32x2 & 0xffffffff) as i32) ; let a32 = ((a32x2 >> 32) as i32).saturating_add((a32x2 & 0xffffffff) as i32) ; let l8 = normalizer.clip(l32) ; let a8 = normalizer.clip(a32) ; d_row.get_unchecked_mut(dst_x).0 = [l8, a8]" := by
+  refine ⟨rfl, rfl, rfl, rfl, rfl, rfl, rfl, rfl, rfl, rfl⟩
 
 end Fir.C02
